@@ -575,7 +575,7 @@ def run_coupd_sense(prog, E=None, rule="R-COUPD"):
     E = E or Effects(prog)
     res = RuleResult(rule + "(sense)", "every path that stores a new row sense also writes the logical column's lower bound, upper bound and "
                                       "coefficient before the iteration / the function completes")
-    partners = ("ILLlpdata::lower", "ILLlpdata::upper", "ILLmatrix::matval")
+    partners = ("ILLlpdata::lower", "ILLlpdata::upper", "ILLmatrix::matval", "ILLlpdata::rangeval")
     nsites = 0
     n_append = [0]
 
@@ -634,6 +634,17 @@ def run_coupd_sense(prog, E=None, rule="R-COUPD"):
                 for p in partners:
                     if fp and fp[-1].endswith(p):
                         wr[p].add(bid)
+        # the range array is optional: `if (lp->rangeval) Zero (lp->rangeval[row])` - the test block counts when its taken branch writes
+        # the entry (no array means every range is zero)
+        for bid in f.live:
+            c = f.blocks[bid].get("c")
+            if c is None:
+                continue
+            c0 = strip(c)
+            if isinstance(c0, list) and c0 and c0[0] == "m" and c0[2].endswith("ILLlpdata::rangeval"):
+                ss = prog.live_succs(f, f.blocks[bid])
+                if ss and ss[0] in wr["ILLlpdata::rangeval"]:
+                    wr["ILLlpdata::rangeval"].add(bid)
         nsites += len(stores)
         if f.name in SENSE_EXCEPT:
             res.obligations += len(stores)
